@@ -124,5 +124,155 @@ theorem trso_no_usable_surrogate_none_iff_id {topo : MG Name → Except Err (Lis
       obtain ⟨e', he'⟩ := hiff.1 ⟨e, hr⟩
       rw [hun] at he'; cases he'
 
+/-! ### the hypothesis "no experiment declared" of Props/C05 implies "no experiment usable" -/
+
+/-- with no declared experiment line 6 proposes nothing -/
+theorem line6Fires_false_of_noSurr {M : Nat} {q : Query} {G : MG Name} (sep : SepTest) (h : TInv M q G) (hs : NoSurr q) :
+    line6Fires sep q = false := by
+  unfold line6Fires
+  cases hguard : (q.active.isEmpty && !q.surr.isEmpty) with
+  | false => rfl
+  | true =>
+    have hne : q.surr ≠ [] := by
+      intro h0
+      simp [h0] at hguard
+    have hkeys := h.keys.resolve_left hne
+    have hl : line6 sep q = .ok [] := by
+      apply line6_nil
+      intro p hp hpt
+      obtain ⟨Z, hZ⟩ := hkeys p hp hpt
+      have : Z = [] := hs _ (lookup_key hZ)
+      rw [hZ, this]
+    rw [hl]
+    rfl
+
+/-- a target-phase run without declared experiments never uses line 6 (recursion level; mirrors `trsoF_target_ok`) -/
+theorem usesLine6_false_of_noSurr (sep : SepTest) (M : Nat) :
+    ∀ (fuel : Nat) (q : Query) (G : MG Name), TInv M q G → NoSurr q → Clean q.expr → usesLine6 sep fuel q = false
+  | 0, _, _, _, _, _ => rfl
+  | fuel + 1, q, G, h, hs, hc => by
+    have ih := usesLine6_false_of_noSurr sep M fuel
+    have hg : q.graph = .ok G := h.look
+    unfold usesLine6
+    rw [hg]
+    simp only []
+    split
+    · rfl
+    · obtain ⟨anc, hanc⟩ := h.anc_ok
+      rw [hanc]
+      simp only []
+      split
+      · -- line 2
+        rename_i hne
+        have hne' : (diff' (regularNodes G) anc).isEmpty = false := by simpa using hne
+        obtain ⟨q', G', hq', hinv', _, hc', hsurr'⟩ := line2_ok h hanc hne' Clean (fun r => line2_expr_ok hc)
+        rw [hq']
+        exact ih q' G' hinv' (noSurr_of_eq hs hsurr') hc'
+      · obtain ⟨extra, hex⟩ := h.noEffect_ok
+        rw [hex]
+        simp only []
+        split
+        · -- line 3
+          rename_i hne
+          have hne' : extra.isEmpty = false := by simpa using hne
+          obtain ⟨hinv', _⟩ := line3_inv h hex hne'
+          exact ih (line3 q extra) G hinv' (noSurr_of_eq hs rfl) hc
+        · split
+          · -- line 4
+            rename_i hlen
+            have h4 := line4_inv h hlen
+            apply List.any_eq_false.2
+            intro s hs'
+            obtain ⟨hinv', _, hexpr, hsurr'⟩ := h4 s hs'
+            rw [ih s G hinv' (noSurr_of_eq hs hsurr') (hexpr ▸ hc)]
+            exact Bool.false_ne_true
+          · -- lines 6-11
+            rename_i hlen
+            rw [line6Fires_false_of_noSurr sep h hs, Bool.false_or]
+            apply List.any_eq_false.2
+            intro s hs'
+            suffices hsf : usesLine6 sep fuel s = false by rw [hsf]; exact Bool.false_ne_true
+            unfold sub811 at hs'
+            split at hs'
+            · cases hs'
+            · rename_i hdl
+              have hdne := h.dwi_ne
+              cases hd : (G.removeNodes q.X).districts with
+              | nil => exact absurd hd hdne
+              | cons c rest =>
+                have hrest : rest = [] := by
+                  cases rest with
+                  | nil => rfl
+                  | cons a as => rw [hd] at hlen; simp at hlen
+                subst hrest
+                obtain ⟨hcmem, hYc, hcne⟩ := h.single_dwi hd
+                obtain ⟨order, hord, hcomp⟩ := h.order_ok
+                rw [hd] at hs'
+                simp only [] at hs'
+                split at hs'
+                · cases hs'
+                · obtain ⟨c', hfil, hc'd, hcc', hc'n⟩ := h.super_district hd
+                  rw [hfil] at hs'
+                  simp only [] at hs'
+                  have hsurr10 : line10Surr q G c' = .ok (some []) := by
+                    unfold line10Surr; simp [h.act]
+                  rw [hsurr10] at hs'
+                  simp only [] at hs'
+                  have hin : ∀ v ∈ nsort c', v ∈ order := fun v hv => hcomp v (hc'n v ((mem_nsort v c').1 hv))
+                  obtain ⟨q', hq', hcq', hX, hYq, hact, hdom, hsurr, hgr⟩ := line10_ok (s := []) hc hord hin
+                  rw [hq'] at hs'
+                  simp only [] at hs'
+                  obtain rfl := List.mem_singleton.1 hs'
+                  obtain ⟨hinv', _⟩ :=
+                    line10_tinv h hc'd (fun y hy => hcc' y (hYc y hy)) hdl hX hYq hact hdom hsurr hgr
+                  exact ih s _ hinv' (noSurr_nil hsurr) hcq'
+
+/-- **"No experiment declared" implies "no experiment usable"**: the hypothesis of the `_partial` theorems of Props/C05
+implies the hypothesis of the theorems above, which therefore subsume them -/
+theorem identifyUsesLine6_of_no_declared (sep : SepTest)
+    (G : MG Name) (hG : G.WF) (hA : G.Acyclic) (hsmall : ∀ v ∈ G.nodes, v < 200) (Y X : List Name)
+    (outcomes interventions : List (Pop × List Name)) (hv : validInput G Y X outcomes interventions = true) (hY : Y ≠ [])
+    (hZ : ∀ p ∈ interventions, p.2 = []) :
+    identifyUsesLine6 sep G Y X outcomes interventions = false := by
+  obtain ⟨graphs, hg⟩ := surrogateToTransport_ok hG hv
+  obtain ⟨hinv, _, hc⟩ := initial_inv hG hA (noT_of_small hsmall) hsmall hv hY hg
+  rw [identifyUsesLine6_eq hv hg]
+  exact usesLine6_false_of_noSurr sep _ _ _ G hinv (initial_noSurr hZ) hc
+
+/-! ### non-vacuity -/
+
+/-- the napkin graph `0 → 1 → 2 → 3`, `0 ↔ 2`, `0 ↔ 3` -/
+private def napkin : MG Name := MG.fromEdges [] [(0, 1), (1, 2), (2, 3)] [(0, 2), (0, 3)]
+/-- the bow `0 → 1`, `0 ↔ 1` -/
+private def bow : MG Name := MG.fromEdges [] [(0, 1)] [(0, 1)]
+
+/-- a DECLARED experiment that is not usable, on an identifiable query: source domain 1001 declares an experiment on
+variable `1`.  Line 3 moves `0, 1` into the interventions, so at line 6 the domain does have an experiment on an
+intervention and the separation test IS evaluated - and fails (the selection node `T_3` points into the outcome `3`).
+The run never uses line 6, `trso_no_usable_surrogate_iff_id` applies (its hypotheses hold), and TRSO returns an estimand
+(lines 3, 10, 9), as ID does.  `hZ` of `trso_no_surrogate_iff_id_partial` does not hold for this input. -/
+example : validInput napkin [3] [2] [(1001, [1])] [(1001, [1])] = true ∧
+    identifyUsesLine6 dSeparated napkin [3] [2] [(1001, [1])] [(1001, [1])] = false ∧
+    ∃ e, identifyTargetOutcomes dSeparated napkin [3] [2] [(1001, [1])] [(1001, [1])] = .ok (some e) :=
+  ⟨rfl, rfl, _, rfl⟩
+
+/-- a declared experiment that is not usable, on a query ID refuses: the bow with an experiment on the outcome (never
+among the interventions).  The predicate is `false`, TRSO answers "no estimand", ID raises `Unidentifiable`
+(`trso_no_usable_surrogate_none_iff_id`). -/
+example : validInput bow [1] [0] [(1001, [1])] [(1001, [1])] = true ∧
+    identifyUsesLine6 dSeparated bow [1] [0] [(1001, [1])] [(1001, [1])] = false ∧
+    identifyTargetOutcomes dSeparated bow [1] [0] [(1001, [1])] [(1001, [1])] = .ok none :=
+  ⟨rfl, rfl, rfl⟩
+
+/-- the predicate is not constantly `false`: with an experiment on the intervention `2` and surrogate outcome `3`
+line 6 finds domain 1001 usable -/
+example : identifyUsesLine6 dSeparated napkin [3] [2] [(1001, [3])] [(1001, [2])] = true := rfl
+
+/-- ... and a used experiment changes the verdict: on the bow, which ID refuses, an experiment on the intervention
+makes TRSO answer (so the hypothesis `identifyUsesLine6 … = false` cannot be dropped) -/
+example : identifyUsesLine6 dSeparated bow [1] [0] [(1001, [1])] [(1001, [0])] = true ∧
+    ∃ e, identifyTargetOutcomes dSeparated bow [1] [0] [(1001, [1])] [(1001, [0])] = .ok (some e) :=
+  ⟨rfl, _, rfl⟩
+
 end Trso
 end Y0
